@@ -48,6 +48,8 @@ func main() {
 	fmt.Fprintf(os.Stderr, "harness: %d events\n", nEvents)
 }
 
+var all10 = []int{0, 1, 2, 3, 4, 5, 6, 7, 8, 9}
+
 func set(names ...string) map[string]bool {
 	m := map[string]bool{}
 	for _, n := range names {
@@ -73,6 +75,39 @@ func genFor(prop, tier string, seed int64) {
 			runEncode(tier, seed, set("latin", "runs"), pickLangs(1), false)
 		} else {
 			runEncode(tier, seed, set("flips", "latin", "runs", "last", "random"), pickLangs(10), false)
+		}
+	case "C02":
+		if q {
+			runEncode(tier, seed, set("runs"), pickLangs(2), true)
+			runEncode(tier, seed, set("latin", "hash"), pickLangs(1), true)
+			runEncode(tier, seed, set("random"), pickLangs(10), true)
+			runSweeps(tier, seed, newRng(seed, "c02l").perm(10)[:2], 2)
+		} else {
+			runEncode(tier, seed, set("runs", "latin", "hash", "random", "last"), pickLangs(10), true)
+			runSweeps(tier, seed, all10, 4)
+		}
+		runGenerated(tier, seed)
+	case "C03":
+		if q {
+			runSweeps(tier, seed, all10, 1)
+			runMutations(tier, seed, newRng(seed, "c03l").perm(10)[:2], true)
+			runMutations(tier, seed+1000, all10, false)
+		} else {
+			runSweeps(tier, seed, all10, 10)
+			runMutations(tier, seed, all10, true)
+			for k := int64(1); k <= 4; k++ {
+				runMutations(tier, seed+1000*k, all10, false)
+			}
+		}
+	case "C15":
+		runDefects(tier, seed, all10)
+		if q {
+			runMutations(tier, seed, all10, false)
+		} else {
+			for k := int64(0); k < 6; k++ {
+				runDefects(tier, seed+77*(k+1), all10)
+				runMutations(tier, seed+1000*k, all10, false)
+			}
 		}
 	default:
 		fatal("gen: unknown property", prop)
